@@ -28,6 +28,7 @@ type scenario struct {
 	Jobs         int    `json:"jobs"`
 	Stoppers     int    `json:"stoppers"`
 	Runners      int    `json:"runners"`
+	Cancellers   int    `json:"cancellers"` // callers that cancel the context Run was given
 	StartRunning bool   `json:"startRunning"`
 	// Schedule, when present, is replayed: one entry per observation of a TLC behaviour (S<j>, T<t>, R<r>, F, W);
 	// the actor is stepped if it is parked at a gate, otherwise it reaches its next gate by itself
@@ -67,8 +68,10 @@ func execute(sc scenario, mode string, pick picker) (ex execution) {
 	verif.SetAt(nil)
 	pool := verif.NewPool(sc.Workers, time.Millisecond)
 	ctx := context.Background()
+	runCtx, cancelParent := context.WithCancel(ctx)
+	defer cancelParent()
 	if sc.StartRunning {
-		pool.Run(ctx)
+		pool.Run(runCtx)
 	}
 	var mu sync.Mutex
 	executed := make([]int, sc.Jobs+1)
@@ -109,11 +112,14 @@ func execute(sc scenario, mode string, pick picker) (ex execution) {
 	}
 	for r := 1; r <= sc.Runners; r++ {
 		s.Go(fmt.Sprintf("R%d", r), func() {
-			pool.Run(ctx)
+			pool.Run(runCtx)
 			mu.Lock()
 			stopReturned = false
 			mu.Unlock()
 		})
+	}
+	for x := 1; x <= sc.Cancellers; x++ {
+		s.Go(fmt.Sprintf("X%d", x), func() { cancelParent() })
 	}
 	var cur *sched.Actor
 	maxSteps := 3000
@@ -194,6 +200,25 @@ func execute(sc scenario, mode string, pick picker) (ex execution) {
 	for _, e := range ex.Events {
 		if e.K == "S" && (e.P == "wpool.send.direct" || e.P == "wpool.lazy.pushed") {
 			accepted[e.Id] = true
+		}
+	}
+	// a job accepted after the last Run returned, with no Stop and no cancellation begun at any time after that Run,
+	// was accepted by a running pool: it must have been executed once the execution has drained
+	lastRun, disturbed := -1, false
+	for i, e := range ex.Events {
+		if e.K == "R" && e.P == "done" {
+			lastRun, disturbed = i, false
+		}
+		if e.K == "T" || e.K == "X" {
+			disturbed = true
+		}
+	}
+	if ex.Outcome == "ok" && lastRun >= 0 && !disturbed && sc.Cancellers == 0 {
+		for i, e := range ex.Events {
+			if i > lastRun && e.K == "S" && (e.P == "wpool.send.direct" || e.P == "wpool.lazy.pushed") && executed[e.Id] == 0 {
+				// only if the pool was really (re)started by then: some Stop returned before that Run began, or it never ran
+				ex.Problems = append(ex.Problems, fmt.Sprintf("job %d was accepted after Run returned (no Stop afterwards) but never executed", e.Id))
+			}
 		}
 	}
 	for j := 1; j <= sc.Jobs; j++ {
